@@ -33,6 +33,7 @@
 #include <time.h>
 #include <tuple>
 #include <typeinfo>
+#include <sys/stat.h>
 #include <unistd.h>
 #include <vector>
 
@@ -446,12 +447,15 @@ std::string runScenario(const Scenario& sc)
       {
          int i = -1;
          std::string s, tag;
-         Handler ah(out, err, Handler::hfEnvVarArgs);
+         std::string pa;
+         // also reads $HOME/.progargs/tool<variant>.pa (written in main()): the program name is used twice per evaluation
+         Handler ah(out, err, Handler::hfEnvVarArgs | Handler::hfReadProgArg);
          ah.addArgument("i", DEST_VAR(i), "Integer");
          ah.addArgument("s", DEST_VAR(s), "String");
          ah.addArgument("tag", DEST_VAR(tag), "Tag");
+         ah.addArgument("pa", DEST_VAR(pa), "From the program argument file");
          ah.evalArguments(ac, av.data());
-         dump << "i=" << i << " s=" << s << " tag=" << tag;
+         dump << "i=" << i << " s=" << s << " tag=" << tag << " pa=" << pa;
          break;
       }
       case K_ENDVALUES:
@@ -595,6 +599,17 @@ int main(int argc, char** argv)
       }
       atexit([] { for (int k = 0; k < 4; ++k) { unlink((gFileDir + "/args" + std::to_string(k) + ".txt").c_str()); unlink((gFileDir + "/inner" + std::to_string(k) + ".txt").c_str()); } rmdir(gFileDir.c_str()); });
    }
+   {
+      // program argument files $HOME/.progargs/tool<v>.pa of the env-var scenarios (hfReadProgArg); HOME never changes afterwards
+      setenv("HOME", gFileDir.c_str(), 1);
+      mkdir((gFileDir + "/.progargs").c_str(), 0700);
+      for (int v = 0; v < 8; ++v)
+      {
+         std::ofstream f(gFileDir + "/.progargs/tool" + std::to_string(v) + ".pa");
+         f << "--pa pa" << v << "\n";
+      }
+      atexit([] { for (int v = 0; v < 8; ++v) unlink((gFileDir + "/.progargs/tool" + std::to_string(v) + ".pa").c_str()); rmdir((gFileDir + "/.progargs").c_str()); });
+   }
    for (int v = 0; v < 8; ++v)
    {
       // read by the env-var scenarios; never changed once threads exist
@@ -686,7 +701,7 @@ int main(int argc, char** argv)
          }
          if (ws[t].sc.kind == K_ENVVAR)
          {
-            const std::string want = "ok | i=" + std::to_string(1000 + ws[t].sc.variant) + " s=" + ws[t].sc.words[0] + " tag=env" + std::to_string(ws[t].sc.variant) + " | out= | err=";
+            const std::string want = "ok | i=" + std::to_string(1000 + ws[t].sc.variant) + " s=" + ws[t].sc.words[0] + " tag=env" + std::to_string(ws[t].sc.variant) + " pa=pa" + std::to_string(ws[t].sc.variant) + " | out= | err=";
             out.stat("sequential_results_compared_with_the_known_result");
             if (ws[t].expected != want)
                out.viol(std::string("sequential-result|") + kindFamily[ws[t].sc.kind], std::string(d) + ": scenario {" + ws[t].sc.descr +
